@@ -96,7 +96,7 @@ fn models(tier: Tier) -> Vec<(String, Arc<StreamModel>, Vec<Plan>)> {
         out.push((
             m.name.clone(),
             m,
-            vec![Plan::Dev { k: 2, depth: 130, default: Arc::new(|p| if p % 8 == 7 { 1 } else { 0 }) }],
+            vec![Plan::Dev { k: 2, depth: 80, default: Arc::new(|p| if p % 8 == 7 { 1 } else { 0 }) }],
         ));
         let m = Arc::new(StreamModel {
             name: "links=3 probe cadence".into(),
@@ -108,7 +108,7 @@ fn models(tier: Tier) -> Vec<(String, Arc<StreamModel>, Vec<Plan>)> {
         out.push((
             m.name.clone(),
             m,
-            vec![Plan::Dev { k: 2, depth: 110, default: Arc::new(|p| if p % 8 == 7 { 1 } else { 0 }) }],
+            vec![Plan::Dev { k: 2, depth: 70, default: Arc::new(|p| if p % 8 == 7 { 1 } else { 0 }) }],
         ));
     }
     out
@@ -238,7 +238,7 @@ pub fn run(tier: Tier) -> Report {
     // the mirror is also bound behaviourally: lock-step runs against the real loop
     crate::realx::run_lockstep(&mut rep, tier.is_quick());
     let lim = Limits {
-        wall: Duration::from_secs(if tier.is_quick() { 40 } else { 2400 }),
+        wall: Duration::from_secs(if tier.is_quick() { 40 } else { 900 }),
         ..Default::default()
     };
     for (label, m, plans) in models(tier) {
